@@ -111,3 +111,16 @@ prop("C07",
      explanation="Board::master_reset leaves the comparator status bits stale until the next update; neither C07 nor C14 quantifies over that",
      assumptions=["`confined` programs are generated from direct-addressing templates; the theorem covers any program whose accesses are confined"],
      )
+
+prop("C11",
+     modules=["Emu2a.Props.C11"],
+     theorems=["Emu2a.C11.keyClock_assembly_spec", "Emu2a.C11.stepA_spec", "Emu2a.C11.stepB_spec", "Emu2a.C11.keyClock_real",
+               "Emu2a.C11.keyClock_halted", "Emu2a.C11.mode_irrelevant", "Emu2a.C11.edges_mode",
+               "Emu2a.C11.stepB_terminates_partial", "Emu2a.C11.fetch_successor_not_fetch", "Emu2a.C11.stepA_mono"],
+     harness="c11",
+     level_text="Lean theorems: an assembly step returns exactly the iterate clockEdge^(k1+k2) where k1 edges leave the boundary and k2 edges run to the FIRST state that is at the next boundary, halted or a fixed point (never more, never less: every earlier iterate still satisfies the loop condition and is no fixed point); real mode = one edge; a halted machine returns unchanged; the step mode is neither read nor written by clock edges. Termination is proved in partial form (stepB_terminates_partial: returns as soon as some iterate stops or is a fixed point; phase A: a fetch word is never followed by a fetch word); the existence of such an iterate for every state is established by the harness (all 256 opcode bytes x second bytes under a watchdog, every mid-run state of generated runs), not yet by a theorem",
+     technique="Lean 4 loop characterisation by induction on fuel + differential: real trigger_key_clock on a clone vs single edges to the boundary at every edge of generated runs, watchdog for termination",
+     rule="(1) every opcode byte 0..255 at PC (prefixes x defined second bytes + a rotating eighth of all second bytes), three consecutive assembly steps each, real step on a clone under a 5 s watchdog compared (PartialEq) with single edges to the next boundary; (2) 40/400 runs of 300 edges of confined and random programs with stimuli: at EVERY edge a clone is stepped in assembly mode and compared; random mode switches mid-run; distinct = distinct op lines",
+     explanation="hang words (undefined opcodes) become fixed points after their second execution; the fix c003f27 leaves the loop there",
+     assumptions=["unconditional termination rests on C09's bounds plus the harness sweep (see level text)"],
+     )
